@@ -111,6 +111,15 @@ def _single(a: T):
         if not scalar and k in (1, 2, 3):
             vec = any(is_call_to(z, ".as_rotvec") for z in inner.walk())
             want = 1 if vec else 2
+            # r[np.newaxis]: a batch of one
+            cur = strip_asarray(inner)
+            while cur.op == "sub":
+                ix = cur.args[1]
+                want += sum(1 for z in (ix.args if ix.op == "tuple" else
+                                        (ix,))
+                            if z is tm.NONE or (z.op == "global" and
+                                                z.args[0] == "numpy.newaxis"))
+                cur = strip_asarray(cur.args[0])
             return (k == want) == (op == "Eq")
     if l.op == "sub" and l.args[0].op == "attr" and \
             l.args[0].args[1] == "shape" and r.op == "tuple" and \
@@ -241,15 +250,36 @@ def check(ctx):
                                    for x in c.walk())]
     one = any(tm.is_const(x) and x.args[1] == 1.0 for c in det_c
               for x in c.walk())
+
+    def _is_det(x):
+        return is_call_to(x, "numpy.linalg.det") and x.args[1][0] is r
+    # the sign of the determinant must reach the comparison with +1:
+    # |det| or det**2 close to 1 also holds for reflections
+    unsigned = [x for c in det_c for x in c.walk() if (
+        (is_call_to(x, "numpy.abs", "numpy.absolute", "numpy.fabs",
+                    "builtins.abs", "numpy.square") and x.args[1] and
+         any(_is_det(y) for y in x.args[1][0].walk()) and not any(
+             tm.is_const(y) and y.args[1] == 1.0
+             for y in x.args[1][0].walk())) or
+        (x.op == "binop" and x.args[0] == "Pow" and _is_det(x.args[1])) or
+        (x.op == "binop" and x.args[0] == "Mult" and _is_det(x.args[1])
+         and _is_det(x.args[2])))]
+    if det_c and one and unsigned and orth_c:
+        ctx.ob("C09.3", prog.func(L + "is_so3"), False,
+               f"is_so3 compares {fmt(unsigned[0])[:60]} with 1: the sign of "
+               f"the determinant is lost, reflections (det = -1) pass as "
+               f"rotations", key="C09.3:is_so3")
+        det_c = []
     ok = bool(det_c) and bool(orth_c) and one
-    ctx.ob("C09.3", prog.func(L + "is_so3"), ok,
-           "is_so3 = (det(r) close to +1) AND (r^T r close to I): "
-           "reflections and scaled/sheared blocks each fail a dedicated "
-           "conjunct" if ok else
-           f"is_so3 lacks the "
-           f"{'determinant' if not det_c or not one else 'orthogonality'} "
-           f"conjunct: {fmt(ret)}", key="C09.3:is_so3")
-    tolv = [(k, _default_of(prog.func(L + "is_so3"), v_))
+    if not unsigned:
+        ctx.ob("C09.3", prog.func(L + "is_so3"), ok,
+               "is_so3 = (det(r) close to +1) AND (r^T r close to I): "
+               "reflections and scaled/sheared blocks each fail a dedicated "
+               "conjunct" if ok else
+               f"is_so3 lacks the "
+               f"{'determinant' if not det_c or not one else 'orthogonality'}"
+               f" conjunct: {fmt(ret)}", key="C09.3:is_so3")
+    tolv = [(k, _default_of(prog.func(L + "is_so3"), v_, prog))
             for c in conj for x in c.walk() if x.op == "call"
             for k, v_ in x.args[2] if k in ("atol", "rtol")]
     # the membership tests must not widen a parametrised tolerance
@@ -258,7 +288,7 @@ def check(ctx):
         for e in Interp(prog).run(fn).calls(L + "is_so3"):
             extra = list(e.data["args"][1:]) + \
                 [v_ for _, v_ in e.data["kwargs"]]
-            tolv += [(f"{name}->is_so3", _default_of(fn, v_))
+            tolv += [(f"{name}->is_so3", _default_of(fn, v_, prog))
                      for v_ in extra]
     big = [(k, v_) for k, v_ in tolv if not (
         tm.is_const(v_) and isinstance(v_.args[1], (int, float)) and
@@ -351,8 +381,11 @@ def check(ctx):
                 .walk())) or (sc.op == "binop" and sc.args[0] == "Pow")
     bad = is_call_to(sc, "numpy.cbrt", "scipy.special.cbrt")
     sim = Interp(prog).run(prog.func(L + "is_sim3"))
-    guard = any((a.op == "cmp" and any(tm.is_const(x) and x.args[1] == 0
-                                       for x in a.walk()))
+    # (a test that can tell a negative scale from a positive one: an order
+    # comparison with 0 — `s == 0` only catches the singular block)
+    guard = any((a.op == "cmp" and a.args[0] in ("Lt", "LtE", "Gt", "GtE")
+                 and any(tm.is_const(x) and x.args[1] == 0 and
+                         x.args[1] is not False for x in a.walk()))
                 for a in sim.ret.walk() if a.op == "cmp")
     if good or guard:
         ctx.ob("C09.3", prog.func(L + "sim3_scale"), True,
@@ -463,11 +496,19 @@ def check(ctx):
                     prog.func(L + "so3_log"),
                     {"degrees": const(True), "return_skew": const(False)})
                 conv = is_call_to(lr.ret, "numpy.rad2deg", "numpy.degrees")
+        # (looked for in everything a genuine rotation can be given back,
+        # e.g. behind the empty-batch / unit branches of a vectorised helper;
+        # not evidence if a well-conditioned form is used next to it)
+        whole = tm.deep_select(res.ret, lambda a: True if a is member
+                               else None)
         arccos = any(is_call_to(y, "numpy.arccos", "math.acos")
-                     for y in ret.walk()) and any(
+                     for y in whole.walk()) and any(
             is_call_to(y, "numpy.trace") or (y.op == "attr" and
                                              y.args[1] == "trace")
-            for y in ret.walk())
+            for y in whole.walk()) and not any(
+            is_call_to(y, ".as_rotvec", ".magnitude", L + "so3_log",
+                       "numpy.arctan2", "math.atan2")
+            for y in whole.walk())
         if ang_ok:
             ctx.ob("C09.4", f, conv == deg,
                    f"[degrees={deg}] angle = |rotation vector of so3_log(r)|"
@@ -708,7 +749,7 @@ def _neg_dot(t: T):
     return None
 
 
-def _default_of(fn, v: T) -> T:
+def _default_of(fn, v: T, prog=None) -> T:
     """a tolerance that is the function's own parameter stands for that
     parameter's default (what callers that do not pass it get)"""
     if v.op == "param":
@@ -719,6 +760,15 @@ def _default_of(fn, v: T) -> T:
                 [(k, d) for k, d in zip(a.kwonlyargs, a.kw_defaults) if d]:
             if prm.arg == v.args[0] and isinstance(d, ast.Constant):
                 return const(d.value)
+            if prm.arg == v.args[0] and prog is not None:
+                # a named module constant as default
+                from ..interp import Frame
+                dv = Interp(prog).eval(
+                    d, Frame(None, fn.module, {}, {}, None, 99), tm.TRUE)
+                while dv.op == "named":
+                    dv = dv.args[1]
+                if tm.is_const(dv):
+                    return dv
     return v
 
 
